@@ -538,6 +538,16 @@ func genModelWorld(r *Rng, prop string) *World {
 		root = DeepChain(r, &c, DeepSegments(r))
 	}
 	AddEmptyZogTag(r, root, 0.12)
+	if r.P(0.3) {
+		// z.IssuePath on some tests: where a test reports is its own business and nobody else's
+		root.Walk(func(n *Node) {
+			for i := range n.Tests {
+				if r.P(0.2) && n.Catch == nil && !n.Tests[i].TFunc && n.Tests[i].Path == "" {
+					n.Tests[i].Path = "custom.path" + strconv.Itoa(i)
+				}
+			}
+		})
+	}
 	w.Schemas = []*Node{root}
 	no := 1 + r.Intn(4)
 	var ops []Op
